@@ -41,16 +41,48 @@ func (e *enc) guardOf(pt types.Type, st *types.Struct, field int, ref string) (s
 	if !ok {
 		return "", "", false
 	}
-	for i := 0; i < st.NumFields(); i++ {
-		if st.Field(i).Name() != lf {
-			continue
+	// the lock may be a path: "cond.L" = field L of the object in field cond
+	path := strings.Split(lf, ".")
+	curRef, curT := ref, pt
+	for k, name := range path {
+		cst, ok := curT.Underlying().(*types.Struct)
+		if !ok {
+			return "", "", false
 		}
-		l := e.structFieldLoc(ref, pt, st, i)
-		switch l.kind {
-		case "field":
-			return e.load(l), lf, true
-		case "struct":
-			return l.ref, lf, true
+		found := false
+		for i := 0; i < cst.NumFields(); i++ {
+			if cst.Field(i).Name() != name {
+				continue
+			}
+			found = true
+			l := e.structFieldLoc(curRef, curT, cst, i)
+			last := k == len(path)-1
+			switch l.kind {
+			case "field":
+				v := e.load(l)
+				if last {
+					if l.sort == "Iface" {
+						return "(iptr " + v + ")", lf, true
+					}
+					return v, lf, true
+				}
+				p, isPtr := l.t.Underlying().(*types.Pointer)
+				if !isPtr {
+					return "", "", false
+				}
+				curRef, curT = v, p.Elem()
+			case "struct":
+				if last {
+					return l.ref, lf, true
+				}
+				curRef, curT = l.ref, l.t
+			default:
+				return "", "", false
+			}
+			break
+		}
+		if !found {
+			return "", "", false
 		}
 	}
 	return "", "", false
@@ -395,3 +427,44 @@ func (e *enc) invLeaveObls(ins ssa.Instruction, R string) {
 }
 
 func (e *enc) invReturnObls(r *ssa.Return, R string) { e.invLeaveObls(r, R) }
+
+// ---- containers without nil values (type T vals-nonnil f / global g vals-nonnil) ----
+
+// valsNonnilOf: v is (a load of) a field or global whose container is declared to hold no nil values.
+func (e *enc) valsNonnilOf(v ssa.Value) (string, bool) {
+	u, ok := v.(*ssa.UnOp)
+	if !ok {
+		return "", false
+	}
+	switch a := u.X.(type) {
+	case *ssa.FieldAddr:
+		pt := a.X.Type().Underlying().(*types.Pointer).Elem()
+		td := e.typeDeclOf(pt)
+		if td == nil {
+			return "", false
+		}
+		fname := pt.Underlying().(*types.Struct).Field(a.Field).Name()
+		for _, f := range td.ValsNonnil {
+			if f == fname {
+				return td.Type + "." + fname, true
+			}
+		}
+	case *ssa.Global:
+		if d := e.w.CS.Globals[a.Pkg.Pkg.Name()+"."+a.Name()]; strings.Contains(d, "vals-nonnil") {
+			return a.Name(), true
+		}
+	}
+	return "", false
+}
+
+func nonnilTerm(sort, v string) string {
+	switch sort {
+	case "Ref":
+		return fmt.Sprintf("(not (= %s 0))", v)
+	case "Iface":
+		return fmt.Sprintf("(not (= %s INil))", v)
+	case "Slice":
+		return "true"
+	}
+	return ""
+}
